@@ -324,6 +324,8 @@ def install_seams(sim: Sim):
         rel = s.rel(path)
         if rel is None:
             return _REAL_MKDIR(path, mode, *a, **k)
+        s.touched.add(rel)
+        s.touched.add(rel.split("/")[0])
         idx, f = s.find_fault("mkdir", rel)
         if f is not None:
             en = MKDIR_ERRNOS[f["kind"]]
